@@ -295,8 +295,8 @@ impl Check for C12 {
     }
     fn phases(&self, tier: Tier) -> Vec<Phase> {
         match tier {
-            Tier::Quick => vec![Phase::random("odd-profile", 4_000, 2048).batch(50).watchdog(40_000)],
-            Tier::Thorough => vec![Phase::random("odd-profile", 60_000, 2048).batch(100).watchdog(40_000)],
+            Tier::Quick => vec![Phase::random("odd-profile", 20_000, 2048).batch(50).watchdog(40_000)],
+            Tier::Thorough => vec![Phase::random("odd-profile", 300_000, 2048).batch(100).watchdog(40_000)],
         }
     }
     fn hang_is_violation(&self) -> bool {
